@@ -348,7 +348,8 @@ contract(
     raises={"InstantiatorError": f"glyph_name not in self.cached and not has_glyph({_L}, {_IDX}, glyph_name)"},
     ensures={**_GGI_ENSURES, "into-the-given-glyph": "result is output_glyph and result.name == old(output_glyph.name)"},
     canaries={"never-rounds": f"implies({_KEYOF} in {_V}.location_to_master, result.geometry == {_V}.location_to_master[{_KEYOF}].data)", "always-rebuilds": f"{_V} != old({_M})[glyph_name]"},
-    modifies=["Instantiator.glyph_mutators", "OutGlyph.geometry", "OutGlyph.unicodes"],
+    # (object-granular: only THIS instantiator's cache and THIS glyph are written, so a caller's loop keeps what it knows of the other glyphs)
+    modifies=["self.glyph_mutators", "output_glyph.geometry", "output_glyph.unicodes"],
     globals={**_ACCESSORS},
     merge_branches=False,
     # stepping stones on the cache-miss path: what the two callees say about the NEW Variator, in the vocabulary of the cache invariant
